@@ -340,6 +340,30 @@ class Gen:
             block = block + users
         self.combs += block
 
+    def add_namespaced_holder(self):
+        """a combinator (constructor or function) with a local field mask whose fields mention NAMESPACED types, top
+        level and nested -- the place where an appended field may be called like the short name of such a type"""
+        rng = self.rng
+        self.n += 1
+        ns = rng.choice(["geo", "svc", "ab", "maps"]) + str(self.n)
+        pt, ptT = f"{ns}.{rng.choice(['point', 'item', 'rec'])}", None
+        ptT = upfirst(pt)
+        self.combs.append(Comb(pt, ptT, [], [Field("x", T("int")), Field("y", self.scalar())]))
+        self.simple.append((pt, ptT))
+        mk = rng.choice(["fields_mask", "fm", "flags"])
+        fs = [Field(mk, T("#")), Field("a", self.scalar(), (mk, rng.randrange(32)))]
+        refs = [T(pt), T(ptT), T(ptT, bare=True), T(rng.choice(["vector", "Vector"]), [T(rng.choice([pt, ptT]))], bare=rng.random() < 0.5),
+                T("tuple", [T("vector", [T(pt)]), T(nat=rng.randrange(1, 4))])]
+        rng.shuffle(refs)
+        for j, r in enumerate(refs[: rng.randrange(1, 4)]):
+            fs.append(Field(rng.choice(["center", "points", "where", "data"]) + str(j), r, (mk, rng.randrange(32)) if rng.random() < 0.3 else None))
+        if rng.random() < 0.7:
+            c = f"{ns}.holder"
+            self.combs.append(Comb(c, upfirst(c), [], fs))
+            self.simple.append((c, upfirst(c)))
+        else:
+            self.combs.append(Comb(f"{ns}.getHolder", "", [], fs, isfun=True, res=T(rng.choice([ptT, "Int"]))))
+
     def add_function(self):
         rng = self.rng
         name = self.fresh("fn")
@@ -358,8 +382,10 @@ class Gen:
         res = self.result_type(natvars if rng.random() < 0.3 else [])
         self.combs.append(Comb(name, "", [], fs, isfun=True, res=res))
 
-    def schema(self, ntypes=None, nfuns=None, chain=False, shared=False):
+    def schema(self, ntypes=None, nfuns=None, chain=False, shared=False, namespaced=False):
         rng = self.rng
+        if namespaced:
+            self.add_namespaced_holder()
         if chain:
             self.add_chain()
         if shared:
@@ -369,7 +395,7 @@ class Gen:
         for _ in range(nfuns if nfuns is not None else rng.randrange(1, 5)):
             self.add_function()
         combs = self.combs
-        if rng.random() < 0.4 and not (chain or shared):   # declaration order is free in TL: uses may precede declarations
+        if rng.random() < 0.4 and not (chain or shared or namespaced):   # declaration order is free in TL: uses may precede declarations
             ts = [c for c in combs if not c.isfun]
             rng.shuffle(ts)
             combs = ts + [c for c in combs if c.isfun]
@@ -476,6 +502,89 @@ def type_users(s, c):
     return False
 
 
+def mentioned_type_names(c):
+    """every name a combinator's type expressions mention (deep), nat constants excluded"""
+    names = set()
+    for t in c.all_types():
+        for node in t.walk():
+            if node.nat is None and node.name and node.name != "#":
+                names.add(node.name)
+    return names
+
+
+def new_field_name(rng, c, collide=0.5):
+    """name for an appended field.  Often one that COLLIDES with a piece of a namespaced type name the combinator
+    mentions (`point`, `Point` or `geo` for `geo.point`): the linter keys its name resolution by the FULL type name,
+    so such a field shadows nothing and the edit stays safe.  Never a full name the combinator mentions (that the
+    linter does refuse, see unqualified_collision_edit)."""
+    taken = {f.name for f in c.fields} | {a[0] for a in c.targs}
+    full = mentioned_type_names(c)
+    cands = set()
+    for n in full:
+        if "." in n:
+            ns, short = n.split(".", 1)
+            cands |= {short, short[0].lower() + short[1:], short[0].upper() + short[1:], ns}
+    cands = sorted(x for x in cands if x not in taken and x not in full and x not in ("int", "long", "string", "true"))
+    if cands and rng.random() < collide:
+        return rng.choice(cands)
+    return f"nf{len(c.fields)}"
+
+
+def name_collision_edit(rng, s):
+    """append a correctly masked field named like a piece of a namespaced type name that an OLD field of the same
+    combinator mentions (top level or nested); safe: must be accepted"""
+    s = s.copy()
+    cands = []
+    for c in s.combs:
+        for i, f in nat_fields(c):
+            if f.name and not passes_nat(c, f.name) and not any(a[0] == f.name for a in c.targs) \
+                    and [g2.name for g2 in c.fields].index(f.name) == i and any(g2.mask and g2.mask[0] == f.name for g2 in c.fields) \
+                    and any("." in n.name for g2 in c.fields if not g2.rep for n in g2.typ.walk() if n.nat is None and n.name):
+                cands.append((c, f))
+    if not cands:
+        return None
+    c, f = rng.choice(cands)
+    free = [b for b in range(32) if b not in sem_local_bits(s, c, f.name)]
+    name = new_field_name(rng, c, 1.0)
+    if not free or name.startswith("nf"):
+        return None
+    c.fields.append(Field(name, T(rng.choice(SCALARS)), (f.name, rng.choice(free))))
+    if rng.random() < 0.4:   # and a second one
+        n2 = new_field_name(rng, c, 1.0)
+        free = [b for b in free if b != c.fields[-1].mask[1]]
+        if free and not n2.startswith("nf"):
+            c.fields.append(Field(n2, T(rng.choice(SCALARS)), (f.name, rng.choice(free))))
+    return s
+
+
+def unqualified_collision_edit(rng, s):
+    """append a correctly masked field whose NAME is a non-namespaced type name (`int`, `t1`, `T1`) that an old
+    field of the same combinator mentions.  Wire-safe, but the linter resolves the old field's type name through the
+    NEW combinator's field names and refuses ("this reference changed to different source")."""
+    s = s.copy()
+    cands = []
+    for c in s.combs:
+        for i, f in nat_fields(c):
+            if f.name and not passes_nat(c, f.name) and not any(a[0] == f.name for a in c.targs) \
+                    and [g2.name for g2 in c.fields].index(f.name) == i and any(g2.mask and g2.mask[0] == f.name for g2 in c.fields):
+                taken = {g2.name for g2 in c.fields} | {a[0] for a in c.targs}
+                ms = set()
+                for g2 in c.fields:   # what the linter compares: field types outside repetitions, not the result of a type
+                    if not g2.rep:
+                        ms |= {n.name for n in g2.typ.walk() if n.nat is None and n.name and n.name != "#"}
+                names = sorted(n for n in ms if "." not in n and n not in taken)
+                if names:
+                    cands.append((c, f, names))
+    if not cands:
+        return None
+    c, f, names = rng.choice(cands)
+    free = [b for b in range(32) if b not in sem_local_bits(s, c, f.name)]
+    if not free:
+        return None
+    c.fields.append(Field(rng.choice(names), T("long"), (f.name, rng.choice(free))))
+    return s
+
+
 def safe_edits(rng, s, nmax, strict_masks=False):
     """apply up to nmax documented safe edits; returns (new schema, [edit kinds]).
     strict_masks: only nats that already guard at least one field count as "existing field mask" (needed when old
@@ -506,7 +615,7 @@ def safe_edits(rng, s, nmax, strict_masks=False):
             free = [b for b in range(32) if b not in used]
             if not free or (strict_masks and not any(g.mask and g.mask[0] == f.name for g in c.fields)):
                 continue
-            c.fields.append(Field(f"nf{len(c.fields)}", g.scalar(), (f.name, rng.choice(free))))
+            c.fields.append(Field(new_field_name(rng, c, 0.0 if strict_masks else 0.5), g.scalar(), (f.name, rng.choice(free))))
         elif k == "field-passed":
             # the mask is also handed to nat-templated types: free = not used here, nor anywhere below; preferably a
             # bit that a SIBLING (another combinator feeding the same type from its own mask) uses in its own mask
@@ -532,7 +641,7 @@ def safe_edits(rng, s, nmax, strict_masks=False):
                     if g2.name and fed_types(s, o, g2.name) & fed:
                         sib |= {x.mask[1] for x in o.fields if x.mask and x.mask[0] == g2.name}
             pref = [b for b in free if b in sib]
-            c.fields.append(Field(f"nf{len(c.fields)}", g.scalar(), (f.name, rng.choice(pref if pref and rng.random() < 0.85 else free))))
+            c.fields.append(Field(new_field_name(rng, c, 0.0 if strict_masks else 0.5), g.scalar(), (f.name, rng.choice(pref if pref and rng.random() < 0.85 else free))))
         elif k == "field-targ":
             cands = [c for c in s.combs if not c.isfun and any(a[1] == "#" for a in c.targs)
                      and len(s.types()[c.tname]) == 1]
@@ -544,7 +653,7 @@ def safe_edits(rng, s, nmax, strict_masks=False):
             free = [b for b in range(32) if b not in used]
             if not free or (strict_masks and not any(g.mask and g.mask[0] == c.targs[idx][0] for g in c.fields)):
                 continue
-            c.fields.append(Field(f"nf{len(c.fields)}", g.scalar(), (c.targs[idx][0], rng.choice(free))))
+            c.fields.append(Field(new_field_name(rng, c, 0.0 if strict_masks else 0.5), g.scalar(), (c.targs[idx][0], rng.choice(free))))
         elif k == "ctor-union":
             us = [t for t, cs in s.types().items() if len(cs) > 1]
             if not us:
@@ -577,7 +686,7 @@ def safe_edits(rng, s, nmax, strict_masks=False):
             c = rng.choice(cands)
             c.fields.append(Field("newmask", T("#")))
             for i in range(rng.randrange(1, 3)):
-                c.fields.append(Field(f"nf{len(c.fields)}", g.scalar(), ("newmask", rng.randrange(32))))
+                c.fields.append(Field(new_field_name(rng, c, 0.0 if strict_masks else 0.5), g.scalar(), ("newmask", rng.randrange(32))))
         kinds.append(k)
     return s, kinds
 
